@@ -1364,6 +1364,15 @@ class C16(core.PropertyCheck):
             yield {"kind": "toml", "text": text, "tag": "random-valid", "via": rng.choice(["open", "project"]), "must_reject": False}
             for t, tag in text_damage(text, rng, 2):
                 yield {"kind": "toml", "text": t, "tag": tag, "via": "open", "must_reject": False}
+        # 3b. facets.toml: the other configuration file of a project (read by the postprocessor through
+        #     ProjectConfig.load_facets_from_file): well-formed documents, every malformed shape, and text damage
+        from impl import c02disk
+        for name, doc in sorted(c02disk.FACETS.items()):
+            yield {"kind": "facets", "tag": name, "hex": (doc if isinstance(doc, bytes) else doc.encode("utf-8")).hex()}
+        for _ in range(max(20, budget // 20)):
+            base = c02disk.FACETS[rng.choice(["good", "good-sub", "unknown-value"])]
+            for t, tag in text_damage(base, rng, 2):
+                yield {"kind": "facets", "tag": "damaged:" + tag, "hex": t.encode("utf-8", "surrogatepass").hex()}
         # 4. spec documents
         for _ in range(budget // 2):
             yield gen_spec_case(rng)
@@ -1427,6 +1436,17 @@ class C16(core.PropertyCheck):
             except Exception as e:
                 return exc_outcome(e)
             return {"out": "ok", "val": canon(res), "conform": conform(res, ty)}
+        if kind == "facets":
+            with tempfile.TemporaryDirectory(prefix="c16f-") as d:
+                path = Path(d).resolve() / "facets.toml"
+                path.write_bytes(bytes.fromhex(case["hex"]))
+                try:
+                    facets, diags = stypes.ProjectConfig.load_facets_from_file(path)
+                except Exception as e:
+                    return {"out": "other", "exc": type(e).__name__, "msg": str(e)[:200], "stage": "facets"}
+                shape = isinstance(facets, list) and all(isinstance(f, stypes.Facet) and isinstance(f.category, str) and isinstance(f.value, str) for f in facets)
+                return {"out": "ok", "n": len(facets) if isinstance(facets, list) else -1, "shape": shape,
+                        "diags": [[type(x).__name__, 0, x.message[:120]] for x in diags]}
         if kind == "toml":
             with tempfile.TemporaryDirectory(prefix="c16-") as d:
                 root = Path(d).resolve()
@@ -1620,6 +1640,14 @@ class C16(core.PropertyCheck):
                 if case.get("must_reject"):
                     return f"check_type accepted a mapping with the undeclared field {UNKNOWN}"
             return None
+        if kind == "facets":
+            if impl["out"] == "other":
+                return f"loading facets.toml raised {impl['exc']} ({impl['msg']}) instead of reporting a configuration diagnostic"
+            if not impl["shape"]:
+                return "load_facets_from_file returned something that is not a list of Facet(category: str, value: str)"
+            if case["tag"] in ("not-toml", "no-facets-key", "facets-not-a-list", "entry-missing-value", "sub-facets-not-a-list", "not-utf8") and not impl["diags"]:
+                return f"malformed facets.toml ({case['tag']}) accepted without a diagnostic"
+            return None
         if kind == "toml":
             if impl["out"] == "other":
                 return f"opening the project raised {impl['exc']} at stage {impl.get('stage', 'config')} ({impl['msg']}) instead of reporting a configuration diagnostic"
@@ -1732,6 +1760,8 @@ class C16(core.PropertyCheck):
                         tags.append("const-ref:" + ("self" if nm == k else "backward" if nm in keys[:i] else "forward" if nm in keys else "undefined"))
         elif case["kind"] == "toml":
             tags.append("toml:" + case["tag"].split(":")[0] + ":" + case["via"])
+        elif case["kind"] == "facets":
+            tags.append("facets:" + case["tag"].split(":")[0] + (":diagnosed" if impl.get("diags") else ":silent"))
         else:
             tags.append("spec:" + case["category"])
         return tags
